@@ -67,6 +67,20 @@ def gen_ud(rng, acc):
     return (head + rng.randbytes(32 - n)).hex()
 
 
+def same_certificate(der_a, der_b):
+    """True when both encodings parse to the same signed content, signature value and
+    algorithm (an encoding-only difference)"""
+    from cryptography import x509
+    try:
+        a = x509.load_der_x509_certificate(der_a)
+        b = x509.load_der_x509_certificate(der_b)
+        return (a.tbs_certificate_bytes == b.tbs_certificate_bytes and
+                a.signature == b.signature and
+                a.signature_algorithm_oid == b.signature_algorithm_oid)
+    except Exception:
+        return False
+
+
 def flipper(rng, lo=0, hi=None):
     def f(b):
         b = bytearray(b)
@@ -258,8 +272,17 @@ def sgx_run(acc, cseed, alter, tmpdir):
                 parts = pems.split(b"-----END CERTIFICATE-----\n")
                 i = rng.randrange(min(2, len(parts) - 1))
                 body = parts[i].replace(b"-----BEGIN CERTIFICATE-----\n", b"")
-                der = bytearray(base64.b64decode(body))
-                der[rng.randrange(len(der))] ^= 1 << rng.randrange(8)
+                orig_der = base64.b64decode(body)
+                for _ in range(50):
+                    der = bytearray(orig_der)
+                    der[rng.randrange(len(der))] ^= 1 << rng.randrange(8)
+                    if not same_certificate(orig_der, bytes(der)):
+                        break
+                    # e.g. the BIT STRING "unused bits" octet of the signature going
+                    # from 0 to 1 when the signature's last bit is 0 anyway: OpenSSL
+                    # reads the very same to-be-signed bytes and signature value, so
+                    # no certificate was altered; draw another position
+                    acc.count("encoding_only_flips_redrawn")
                 b64 = base64.encodebytes(bytes(der)).replace(b"\n", b"")
                 lines = b"\n".join(b64[j:j + 64] for j in range(0, len(b64), 64))
                 parts[i] = b"-----BEGIN CERTIFICATE-----\n" + lines + b"\n"
